@@ -237,6 +237,20 @@ def extract_dataframe(
     # Merge in the dataframe
     join: Literal['outer', 'inner'] = 'outer' if missing_points == 'fill' else 'inner'
     point_dataset = point_dataset.merge(coord_dataset, join=join, fill_value=fill_value)
+    if missing_points == 'fill':
+        # Filling in the missing points can promote an integer variable to floats
+        # so that it can hold nan. An integer on-disk dtype with no fill value
+        # can not represent these, and would turn them in to arbitrary integers
+        # when the dataset is saved.
+        for variable in point_dataset.variables.values():
+            encoded_dtype = variable.encoding.get('dtype')
+            if (
+                encoded_dtype is not None
+                and numpy.dtype(encoded_dtype).kind in 'iu'
+                and variable.dtype.kind == 'f'
+                and variable.encoding.get('_FillValue') is None
+            ):
+                del variable.encoding['dtype']
     point_dataset = point_dataset.set_coords(coordinate_columns)
 
     # Add CF attributes to the new coordinate variables
